@@ -192,7 +192,7 @@ def _order(rep, oc, ci):
         if keys & {'preT1', 'eneT1', 'preT2', 'eneT2'}:
             pos.setdefault('omega12', i)
         if keys & {'preV', 'eneV', 'preS', 'eneS', 'preSV', 'eneSV', 'preT0', 'eneT0'} and 'self.makeLIMBpreene(' not in txt:
-            pos['state'] = i if 'limb' not in pos else pos.get('state', i)
+            pos['state'] = i      # the *last* statement that reads state / omega0 rows
         if 'self.makeLIMBpreene(' in txt and not isinstance(st, (ast.For, ast.If)):
             pos.setdefault('limb', i)
             # the back-fill is computed from the dictionary being built and merged into it
